@@ -215,6 +215,10 @@ Definition process_result_item (m : msg) (e : exec) : exec :=
   | _ => e
   end.
 
+(* One sentinel per process of _processes, ready iff that process is dead.  That the OS makes the sentinel
+   ready WHEN the worker dies is an assumption (the read end sees EOF only once every copy of the write end is
+   closed: a copy inherited by some other process -- e.g. the dead worker's own nested loky workers -- would keep
+   it open); it is tied by the `nested` dimension of the fault-injection scenarios, not by the model. *)
 Definition sentinel_ready (e : exec) : bool :=
   existsb (fun p => match wk e p with WDead => true | _ => false end) (procs e).
 
